@@ -464,17 +464,31 @@ impl Link {
     // Randomly break or repair this link.
     fn rand_partition_or_repair(&mut self, global_config: &config::Link, rand: &mut dyn RngCore) {
         let do_rand = self.rand_partition(global_config.message_loss(), rand);
+        // The random failure process only ever takes down directions that are
+        // healthy and only ever heals directions it took down itself. A
+        // direction that was partitioned explicitly (`partition`,
+        // `partition_oneway`) stays partitioned until it is explicitly
+        // repaired, whatever the random process does to the other direction.
         match (self.state_a_b, self.state_b_a) {
             (State::Healthy, _) | (_, State::Healthy) if do_rand => {
-                self.state_a_b = State::RandPartition;
-                self.state_b_a = State::RandPartition;
+                if matches!(self.state_a_b, State::Healthy) {
+                    self.state_a_b = State::RandPartition;
+                }
+                if matches!(self.state_b_a, State::Healthy) {
+                    self.state_b_a = State::RandPartition;
+                }
 
                 self.sent.clear();
             }
             (State::RandPartition, _) | (_, State::RandPartition)
                 if self.rand_repair(global_config.message_loss(), rand) =>
             {
-                self.release();
+                if matches!(self.state_a_b, State::RandPartition) {
+                    self.state_a_b = State::Healthy;
+                }
+                if matches!(self.state_b_a, State::RandPartition) {
+                    self.state_b_a = State::Healthy;
+                }
             }
             _ => {}
         }
